@@ -371,9 +371,175 @@ fn run_qs(cap: usize, blocked: usize, ops: &str) -> String {
     format!("{} {}", head, o)
 }
 
+/// a ParseError / DecoderError / EncoderError Debug text without payloads that the property does not constrain
+/// (bit-window positions of the Huffman decoder, the offending octet, TryFromIntError)
+fn pcode(e: &str) -> String {
+    let e = e.trim();
+    for (pat, word) in [
+        ("HuffmanDecoding(MissingBits", "Huffman(MissingBits)"),
+        ("HuffmanDecoding(Unhandled", "Huffman(Unhandled)"),
+        ("BufSize", "BufSize"),
+    ] {
+        if let Some(i) = e.find(pat) {
+            // keep the wrappers in front of the pattern, close their parentheses
+            let head = &e[..i];
+            let depth = head.matches('(').count();
+            return format!("{}{}{}", head, word, ")".repeat(depth));
+        }
+    }
+    code(e)
+}
+
+/// chunk sizes: dot separated, `-` = none; what is left after the listed sizes is one more chunk
+fn chunks_of(bytes: &[u8], cuts: &str) -> Vec<Vec<u8>> {
+    let mut out = Vec::new();
+    let mut pos = 0;
+    if cuts != "-" {
+        for c in cuts.split('.').filter(|c| !c.is_empty()) {
+            let n: usize = c.parse().unwrap();
+            let end = (pos + n).min(bytes.len());
+            out.push(bytes[pos..end].to_vec());
+            pos = end;
+        }
+    }
+    if pos < bytes.len() || out.is_empty() {
+        out.push(bytes[pos..].to_vec());
+    }
+    out
+}
+
+/// qp.e: raw encoder-stream bytes handed in pieces to the crate's instruction decoders (P: the stream.rs decoders
+/// behind the first-octet dispatch, as wrapped by parse_encoder_stream) and to the real Decoder::on_encoder_recv (R:)
+fn run_qpe(cap: usize, bytes: &[u8], cuts: &str) -> String {
+    let mut dec = match VDecoder::new(cap, 100) {
+        Ok(d) => d,
+        Err(_) => return "init-err".to_string(),
+    };
+    let mut tail: Vec<u8> = Vec::new();
+    let mut out: Vec<String> = Vec::new();
+    let mut head = "ok";
+    for c in chunks_of(bytes, cuts) {
+        let mut buf = tail.clone();
+        buf.extend_from_slice(&c);
+        let r = catch_unwind(AssertUnwindSafe(|| -> (String, Option<usize>) {
+            let p = match parse_encoder_stream(&buf) {
+                Ok(v) => format!(
+                    "P:{}:{}",
+                    joinor(";", v.iter().map(|(i, _)| instrstr(i)).collect()),
+                    v.iter().map(|(_, n)| n).sum::<usize>()
+                ),
+                Err(x) => format!("P:err:{}", pcode(&x)),
+            };
+            let (r, consumed, w) = dec.on_encoder_recv(&buf);
+            match r {
+                Ok(ins) => (
+                    format!("{}/R:ok:{}:{}:{}:{}", p, ins, consumed, hx_or_dash(&w), dstate(&dec.snapshot())),
+                    Some(consumed),
+                ),
+                Err(x) => (format!("{}/R:err:{}:{}", p, pcode(&x), dstate(&dec.snapshot())), None),
+            }
+        }));
+        match r {
+            Ok((w, Some(consumed))) => {
+                out.push(w);
+                tail = buf[consumed.min(buf.len())..].to_vec();
+            }
+            Ok((w, None)) => {
+                out.push(w);
+                head = "err";
+                break;
+            }
+            Err(_) => {
+                out.push("panic".to_string());
+                head = "panic";
+                break;
+            }
+        }
+    }
+    format!("{} {}", head, out.join(" "))
+}
+
+fn hx_or_dash(w: &[u8]) -> String {
+    if w.is_empty() {
+        "-".to_string()
+    } else {
+        hx(w)
+    }
+}
+
+/// qp.d: raw decoder-stream bytes handed in pieces to the crate's instruction decoders (P:) and to the real
+/// Encoder::on_decoder_recv (R:) of an encoder that has encoded the given sections
+fn run_qpd(cap: usize, blocked: usize, eops: &str, bytes: &[u8], cuts: &str) -> String {
+    let mut enc = match VEncoder::new(cap, blocked) {
+        Ok(e) => e,
+        Err(_) => return "init-err".to_string(),
+    };
+    if eops != "-" {
+        for op in eops.split(',').filter(|o| !o.is_empty()) {
+            let rest = &op[1..];
+            let i = rest.find(':').unwrap();
+            let sid: u64 = rest[..i].parse().unwrap();
+            let fs: Fields = rest[i + 1..]
+                .split('.')
+                .filter(|f| !f.is_empty())
+                .map(|f| {
+                    let k = f.find('=').unwrap();
+                    (unhx(&f[..k]), unhx(&f[k + 1..]))
+                })
+                .collect();
+            if catch_unwind(AssertUnwindSafe(|| enc.encode(sid, &fs).is_ok())).unwrap_or(false) == false {
+                return "setup-err".to_string();
+            }
+        }
+    }
+    let mut tail: Vec<u8> = Vec::new();
+    let mut out: Vec<String> = vec![format!("S:{}", estate(&enc.snapshot()))];
+    let mut head = "ok";
+    for c in chunks_of(bytes, cuts) {
+        let mut buf = tail.clone();
+        buf.extend_from_slice(&c);
+        let r = catch_unwind(AssertUnwindSafe(|| -> (String, Option<usize>) {
+            let p = match parse_decoder_stream(&buf) {
+                Ok(v) => format!(
+                    "P:{}:{}",
+                    joinor(";", v.iter().map(|(i, _)| dinstrstr(i)).collect()),
+                    v.iter().map(|(_, n)| n).sum::<usize>()
+                ),
+                Err(x) => format!("P:err:{}", pcode(&x)),
+            };
+            let (r, consumed) = enc.on_decoder_recv(&buf);
+            match r {
+                Ok(()) => (format!("{}/R:ok:{}:{}", p, consumed, estate(&enc.snapshot())), Some(consumed)),
+                Err(x) => (format!("{}/R:err:{}:{}", p, pcode(&x), estate(&enc.snapshot())), None),
+            }
+        }));
+        match r {
+            Ok((w, Some(consumed))) => {
+                out.push(w);
+                tail = buf[consumed.min(buf.len())..].to_vec();
+            }
+            Ok((w, None)) => {
+                out.push(w);
+                head = "err";
+                break;
+            }
+            Err(_) => {
+                out.push("panic".to_string());
+                head = "panic";
+                break;
+            }
+        }
+    }
+    format!("{} {}", head, out.join(" "))
+}
+
 fn main() {
     run_lines(|ws| match ws {
         ["qs" | "qz" | "qx" | "qc", cap, blocked, ops] => run_qs(cap.parse().unwrap(), blocked.parse().unwrap(), ops),
+        ["qp.e", cap, h, cuts] => run_qpe(cap.parse().unwrap(), &unhex(h), cuts),
+        ["qp.d", cap, blocked, eops, h, cuts] => {
+            run_qpd(cap.parse().unwrap(), blocked.parse().unwrap(), eops, &unhex(h), cuts)
+        }
         ["hp.new", r, b, t, m] => {
             let (e, s, d) = header_prefix_new(
                 r.parse().unwrap(),
